@@ -3,6 +3,7 @@ import RCE.Props.C01
 import RCE.Props.C03
 import RCE.Model.Search
 import RCE.Proofs.BoardUndo
+import RCE.Props.C09
 /-! # C14, the chess instance end to end — every reported principal variation is legal under the rules of chess
 
 `C14.pv_legal` says every `info … pv` line is a line of moves legal in the search's game interface; C01
@@ -45,7 +46,28 @@ theorem chess_pv_legal_by_the_rules (b : Board) (hl : Legal b) (g : GoLimits) (m
     (pv_legal { limits := g.toLimits b.turn, clock := clock, stopAtPoll := stopAtPoll, cacheOff := cacheOff }
       chessGame b maxDepth tt0 hk ht i hi)
 
+open RCE.Proofs.EvalBound in
+/-- in a legal-game position that has a legal move (material within the bound), every info line the search prints —
+    under every limit, stop point and monotone clock, from any cache of `i16` scores — has a principal variation
+    that starts with a move legal under the rules of chess -/
+theorem chess_pv_nonempty (b : Board) (hl : Legal b) (hp : PotentialBounded b) (g : GoLimits) (maxDepth : Option Nat)
+    (clock : Nat → Nat) (hc : ∀ i j, i ≤ j → clock i ≤ clock j) (stopAtPoll : Nat) (cacheOff : Bool) (tt0 : Search.Table Ply)
+    (hm : b.legalMovesPure ≠ []) (ht : TableScoresOK tt0) :
+    ∀ i ∈ (chessSearch b g maxDepth clock stopAtPoll cacheOff tt0).infos,
+      ∃ m rest, i.pv = m :: rest ∧ absMove m ∈ Rules.legalMoves (abs b) := by
+  intro i hi
+  obtain ⟨m, rest, hpv, hmem⟩ := pv_nonempty
+    { limits := g.toLimits b.turn, clock := clock, stopAtPoll := stopAtPoll, cacheOff := cacheOff } chessGame b maxDepth tt0
+    hc (by rw [C09.chess_legalMovesOf]; exact hm) (C09.chess_eval_bounded b hl.wf hp) ht i hi
+  refine ⟨m, rest, hpv, ?_⟩
+  rw [C09.chess_legalMovesOf] at hmem
+  have hpure := (RCE.Proofs.BoardUndo.legalMoves_pure' b hl.wf).2
+  have hex := (C01.legal_exact b hl).1
+  apply hex.mem_iff.mp
+  rw [hpure]; exact List.mem_map_of_mem hmem
+
 end RCE.Props.C14
 
+#print axioms RCE.Props.C14.chess_pv_nonempty
 #print axioms RCE.Props.C14.specLegalLine_of_legalLine
 #print axioms RCE.Props.C14.chess_pv_legal_by_the_rules
